@@ -230,7 +230,9 @@ def discharge(pairs, path, defined, witness, timeout_s=10.0, seed=0, norm_first=
     # 1. seeded refutation (on the original terms)
     env, j, tried = seeded_refute(lp, path, defined, witness, seed=seed)
     if env is not None:
-        return Verdict("refuted", "SEEDED", time.time() - t0, model=env, detail={"pair": live[j][0], "points_tried": tried})
+        full = dict(witness)
+        full.update(env)  # leaves that do not occur in the obligation keep their witness value in the replay
+        return Verdict("refuted", "SEEDED", time.time() - t0, model=full, detail={"pair": live[j][0], "points_tried": tried})
     lp2, had_logs = expand_log_pairs(lp)
     if had_logs:
         lp = [(a, b) for a, b in lp2 if not (a is b or (T.is_const(a) and T.is_const(b) and a == b))]
